@@ -1,7 +1,7 @@
 (* Lemmas about RelEdit.v (C11), part 3: every abstract operation, issued to the register
    machine through handles obtained from the current root, takes a constructor-built field to
    the constructor-built field of the list model; histories by induction. *)
-From V.model Require Import Base RelLex RelParse RelEdit RelEditSpec.
+From V.model Require Import Base RelLex RelParse RelEdit RelEditSpec RelEditTree.
 From V.proofs Require Import BaseP RelEditP RelEditStP.
 Set Default Timeout 60.
 
